@@ -147,6 +147,19 @@ func Wrap(zctx *zed.Context, v Value) []Value {
 			return bb.Bytes()
 		}
 		add("["+n+",\"other\"]", zctx.LookupTypeArray(u), tag(typ, body), tag(zed.TypeString, str.Bytes()))
+		// the same union as a map key type, a map value type, a set element type and a field type
+		var mk zcode.Builder
+		mk.Append(tag(typ, body))
+		mk.Append(one.Bytes())
+		mk.Append(tag(zed.TypeString, str.Bytes()))
+		mk.Append(one.Bytes())
+		out = append(out, Value{"|{" + n + ":1,\"other\":1}|", zed.NewValue(zctx.LookupTypeMap(u, zed.TypeInt64), zed.NormalizeMap(mk.Bytes())).Copy()})
+		add("|{\"k\":"+n+"((union))}|", zctx.LookupTypeMap(zed.TypeString, u), zed.NewString("k").Bytes(), tag(typ, body))
+		var sk zcode.Builder
+		sk.Append(tag(typ, body))
+		sk.Append(tag(zed.TypeString, str.Bytes()))
+		out = append(out, Value{"|[" + n + ",\"other\"]|", zed.NewValue(zctx.LookupTypeSet(u), zed.NormalizeSet(sk.Bytes())).Copy()})
+		add("{f:"+n+"((union))}", zctx.MustLookupTypeRecord([]zed.Field{{Name: "f", Type: u}}), tag(typ, body))
 	}
 	return out
 }
